@@ -73,7 +73,7 @@ func (e *Engine) verifyFuncBounded(fn *ssa.Function, fc *FuncContract, k int) *F
 }
 
 // obligationBudget caps the obligation instances generated for one function (the unchanged tree stays far below).
-const obligationBudget = 80000
+const obligationBudget = 40000
 
 // verifyFunc generates every obligation of one function under contract.
 func (e *Engine) verifyFunc(fn *ssa.Function, fc *FuncContract) *FuncReport {
@@ -107,7 +107,7 @@ func (e *Engine) verifyFunc(fn *ssa.Function, fc *FuncContract) *FuncReport {
 		if len(rep.Unsupported) > 0 {
 			// the proof of this function is lost already; a few more paths are explored for the sake of a more telling
 			// report (a failing postcondition with a counterexample), not all of them
-			if afterUnsup++; afterUnsup > 60 {
+			if afterUnsup++; afterUnsup > 30 {
 				break
 			}
 		}
